@@ -43,6 +43,8 @@ func init() {
 			"a subchart (plain/conditional/aliased/disabled), a sub-subchart or both x 9 contents x {U, D} x {install, dry-run, template, upgrade}. Part F: two charts with the SAME name and version (declared or by alias) at different tree positions (cousins a/db+b/db, parent/child db+db/db, uncle/nephew, root/child) " +
 			"carrying DIFFERENT schemas: ordered schema pairs x content pairs x {U, D} x {install, dry-run, template, upgrade, lint}. Part G: two-step histories: the previous revision stored the user's values under a chart without schema (or under this chart with the explicit skip option), " +
 			"then upgrade --reuse-values / --reset-then-reuse-values with NO values to the chart whose schema they violate: part B's schemas x {root, sub, leaf(, alias, root+sub)} x 9 contents x {U, D, U>D(, split, D<Ugood)}. " +
+			"Part H: n constrained by maximum / enum / const / minimum = +-2^53 x n in {2^53, 2^53+1, -(2^53+1), 5} arriving as int64, json.Number and --set, on root/sub/leaf; " +
+			"o = object with required members j,k where values.yaml supplies them and the user overrides only a part of the table (and the variants that stay invalid). " +
 			"Part D: part B's schemas x {root, sub, root with crds/} x 9 contents x {U, D} on the Secrets and " +
 			"ConfigMaps storage drivers (cluster-touching entries only). Every (schema, tree) pair x {install, install --dry-run, template, upgrade after a " +
 			"valid install, upgrade reusing stored values, lint} x skip-schema-validation off/on. distinct = (schema text, chart tree, layers, entry, skip) with a schema that constrains something",
@@ -66,6 +68,8 @@ func init() {
 			"reject@install:crds-root/schema-sub", "reject@install:crds-root/schema-leaf", "reject@install:crds-sub/schema-root", "reject@install:crds-sibling/schema-sub",
 			"reject@install:crds-root+sub/schema-root+sub", "crds-installed-when-valid",
 			"reject@upgrade-reuse-flag", "reject@upgrade-reset-then-reuse", "reject@upgrade-reuse-flag-after-skip",
+			"kw:const", "H-reject:big+1:U-int64@install", "H-reject:big+1:U-jnum@install", "H-reject:big+1:U-set@install", "H-reject:big+1:U-jnum@lint", "H-reject:-big-1:U-int64@upgrade",
+			"H-accept:big:U-int64@install", "H-accept:big:U-jnum@lint", "H-accept:partial:D{j,k}<U{k}@lint", "H-accept:partial:D{j}+U{k}@lint", "H-accept:partial:D{j,k}<U{k}@install", "H-reject:partial:D{k}<U{k}@lint",
 			"reject:twins", "twins-discriminating-reject@install", "twins-discriminating-accept@install", "twins-discriminating-reject@upgrade", "twins-discriminating-accept@upgrade",
 			"twins-discriminating-reject@template", "twins-discriminating-accept@template", "twins-discriminating-reject@lint", "twins-discriminating-accept@lint",
 		},
@@ -256,6 +260,8 @@ func flatten(prefix string, m map[string]any, out *[]string) {
 			*out = append(*out, p+"="+strconv.FormatBool(x))
 		case float64:
 			*out = append(*out, p+"="+strconv.FormatFloat(x, 'f', -1, 64))
+		case int64:
+			*out = append(*out, p+"="+strconv.FormatInt(x, 10))
 		default:
 			panic(fmt.Sprintf("c14: --set of %T", x))
 		}
@@ -510,6 +516,9 @@ func (e *env) judge(cs Case) outcome {
 		}
 		if !persists {
 			o.Findings[i].Rep = cs.Route
+			if cs.Part == "H" { // integers beyond 2^53: one key per entry and level, whatever the spelling
+				o.Findings[i].Rep = "integer-beyond-2^53"
+			}
 		}
 	}
 	return o
@@ -648,6 +657,15 @@ func units(thorough bool) []unit {
 			out = append(out, unit{Part: "G", B: b, P: p, Trees: orderTrees(ts)})
 		}
 	}
+	// Part H: integers beyond 2^53 against exact bounds; partial override of a nested table with required members
+	for _, b := range bigBodies() {
+		for _, pn := range []string{"root", "sub", "leaf"} {
+			out = append(out, unit{Part: "H", B: b, P: byName[pn], Trees: bigTrees()})
+		}
+	}
+	for _, pn := range []string{"root", "root-with-sub", "sub", "leaf"} {
+		out = append(out, unit{Part: "H", B: nestedRequiredBody(), P: byName[pn], Trees: orderTrees(partialOverrideTrees(len(byName[pn].Chain) - 1))})
+	}
 	// Part D: the other storage drivers
 	dBodies := bodiesReduced(false)
 	if !thorough {
@@ -672,6 +690,8 @@ func entriesFor(part string, thorough bool, vt vtree) []string {
 	var out []string
 	for _, en := range entriesAll {
 		switch {
+		case part == "H" && en == "upgrade-reuse":
+			continue
 		case historyEntry(en) != (part == "G"):
 			continue // part G runs the two-step histories and nothing else
 		case part == "E" && (en == "lint" || en == "upgrade-reuse"):
@@ -713,7 +733,7 @@ func run(c *core.Ctx) {
 	c.Bound("contents-full", strconv.Itoa(len(contents(th))))
 	c.Bound("placements", strconv.Itoa(len(placements())))
 	c.Bound("crd-placements", strconv.Itoa(len(crdPlacements())))
-	c.Bound("pairs", fmt.Sprintf("A=%d B=%d C=%d D=%d E=%d", nPairs["A"], nPairs["B"], nPairs["C"], nPairs["D"], nPairs["E"])+fmt.Sprintf(" G=%d", nPairs["G"]))
+	c.Bound("pairs", fmt.Sprintf("A=%d B=%d C=%d D=%d E=%d", nPairs["A"], nPairs["B"], nPairs["C"], nPairs["D"], nPairs["E"])+fmt.Sprintf(" G=%d H=%d", nPairs["G"], nPairs["H"]))
 	c.Bound("entries", strings.Join(entriesAll, ",")+" x skip{off,on}")
 	smoke := map[string]bool{bodiesReduced(false)[1].ID: true, bodiesReduced(false)[7].ID: true, bodiesReduced(false)[10].ID: true}
 	for _, u := range us {
@@ -799,6 +819,9 @@ func classify(c *core.Ctx, cs Case, o outcome) string {
 	case len(o.Verdicts) > 0 && !cs.Skip:
 		c.Floor("reject:" + cs.Class)
 		c.Floor("reject@" + cs.Entry)
+		if cs.Part == "H" {
+			c.Floor("H-reject:" + cs.Route + "@" + cs.Entry)
+		}
 		if cs.Part == "E" {
 			c.Floor("reject@" + cs.Entry + ":" + cs.Placement)
 		}
@@ -821,6 +844,9 @@ func classify(c *core.Ctx, cs Case, o outcome) string {
 		return "accepted-disabled-subchart-not-evaluated"
 	}
 	c.Floor("accept-valid")
+	if cs.Part == "H" && !cs.Skip {
+		c.Floor("H-accept:" + cs.Route + "@" + cs.Entry)
+	}
 	if o.Deployed {
 		c.Floor("deployed-valid")
 		for _, sent := range o.Sent {
